@@ -23,7 +23,8 @@ Footers(ver) == { <<>>, <<69, 83, 84, 53>>, <<69, 83, 84, 53, 69, 68, 84, 44, 77
                   <<60, 45, 48, 51, 62, 51, 60, 45, 48, 50, 62, 44, 77, 51, 46, 53, 46, 48, 47, 45, 50, 44, 77, 49, 48, 46, 53, 46, 48, 47, 45, 49>> }   \* <-03>3<-02>,M3.5.0/-2,M10.5.0/-1
 \* (the last two have the wrong number of indicators for two types: counts and block sizes stay consistent, the header is invalid)
 IndMenus(nty) == { <<<<>>, <<>>>>, <<[i \in 1..nty |-> 1], <<>>>>, <<[i \in 1..nty |-> 1], [i \in 1..nty |-> 1]>>, <<[i \in 1..nty |-> 0], [i \in 1..nty |-> 0]>>,
-                   <<<<1>>, <<>>>>, <<<<>>, <<0>>>> }
+                   <<<<1>>, <<>>>>, <<<<>>, <<0>>>>,
+                   <<<<>>, [i \in 1..nty |-> 1]>> }          \* UT indicators without standard indicators: the pair (0, 1) is invalid
 OtherZone == [tr |-> <<<<1, 0>>>>, ty |-> <<[off |-> 60, dst |-> 0]>>, lp |-> <<>>]          \* what the ignored 32-bit block of a v2+ file says
 OtherLay == [tab |-> <<85, 84, 67, 0>>, idx |-> <<0>>, isstd |-> <<>>, isut |-> <<>>, footer |-> <<>>]
 
@@ -51,7 +52,8 @@ Wire == [tr |-> [i \in 1..Len(vZ.tr) |-> <<WInt(vZ.tr[i][1]), vZ.tr[i][2]>>],
 FooterOK == vLay.footer = <<>> \/ ParseTz(vLay.footer, vVer = 51).ok
 Faithful == vPh = 1 =>
   LET dd == Decode(vBytes) IN
-  IF FooterOK /\ ZoneVerdict(MkZone(Wire)) = {} /\ Len(vLay.isstd) \in {0, Len(vZ.ty)} /\ Len(vLay.isut) \in {0, Len(vZ.ty)}
+  IF /\ FooterOK /\ ZoneVerdict(MkZone(Wire)) = {} /\ Len(vLay.isstd) \in {0, Len(vZ.ty)} /\ Len(vLay.isut) \in {0, Len(vZ.ty)}
+     /\ \A i \in 1..Len(vZ.ty) : <<IF i <= Len(vLay.isstd) THEN vLay.isstd[i] ELSE 0, IF i <= Len(vLay.isut) THEN vLay.isut[i] ELSE 0>> \in {<<0, 0>>, <<1, 0>>, <<1, 1>>}
   THEN dd.ok /\ dd.zone = Wire
   ELSE ~dd.ok                                                           \* extensions only for version 3; rule must agree with the table
 \* a truncated version-1 file or one with trailing bytes is never accepted
